@@ -239,6 +239,7 @@ def bounded(ctx):
 
 def units(ctx):
     return [core.Unit(f"{PROP}.merge_kernel_intervals", lambda: mc.merge_vcs(PROP), [UT + ".merge_kernel_intervals"]),
+            core.Unit(f"{PROP}.merge_kernel_intervals.stale_helper_columns", lambda: mc.merge_vcs(PROP, stale=True), [UT + ".merge_kernel_intervals"]),
             core.Unit(f"{PROP}.overlap_value", overlap_vcs, [CA + ".CommunicationAnalysis.get_comm_comp_overlap.get_comm_comp_overlap_value"]),
             core.Unit(f"{PROP}.tail", tail_vcs, [CA + ".CommunicationAnalysis.get_comm_comp_overlap"])]
 
